@@ -115,6 +115,12 @@ class Multiplication:
         continue
       cloned.append(l)
       lc = l.clone()
+      # the copy of an edge cannot have the identifier of the original edge
+      if lc.record_type == "E":
+        if not gfapy.is_placeholder(lc.get("eid")):
+          lc.set("eid", gfapy.Placeholder())
+      elif lc.get("ID") is not None:
+        lc.delete("ID")
       if lc.from_segment == segment.name:
         lc.from_segment = clone_name
       if lc.to_segment == segment.name:
